@@ -1,4 +1,4 @@
-EXTRA_IMPORTS = ["Combine", "MergeFull", "ShareFull"]
+EXTRA_IMPORTS = ["Combine", "MergeFull", "ShareFull", "ShareWeak"]
 OPS += [("merge", "{α : Type} (n : Nat)", "Merge.machine α n", "MergeFull.merge_safe n s hs", "MergeFull")]
 SHARE = '''/-- `share`: proved for environments in which the source does not deliver from inside one of share's own deliveries
 (`noNestedFanout`, the restriction C12 makes in its own quantifier). -/
@@ -7,7 +7,14 @@ theorem C%s_share_partial {α : Type} :
   fun s hs => (ShareFull.share_safe_partial s hs).safeFor %d
 '''
 
-EXTRA["04"] = SHARE % ("04", 4, 4) + '''/-- `combine!`: the full statement is FALSE (known findings KF2, KF3: the sink's Pull / Terminate / Error are also sent to members that
+EXTRA["04"] = SHARE % ("04", 4, 4) + '''/-- `share`, EVERY conformant environment (nested fan-out included): the protocol part of C04 holds — no upstream is subscribed twice or
+after the output is over, no Pull / Terminate is sent to an upstream that is not live: the only phase-level violations are late
+deliveries (C02/C03). -/
+theorem C04_share_protocol {α : Type} :
+    ∀ s, SReach (Share.machine α) s → ∀ v ∈ s.g.ph.viols, (∃ k, v = Viol.afterTerm k) ∨ (∃ k, v = Viol.afterDispose k) :=
+  fun s hs => (ShareWeak.share_safe_weak s hs).1
+
+'''+'''/-- `combine!`: the full statement is FALSE (known findings KF2, KF3: the sink's Pull / Terminate / Error are also sent to members that
 have ended, and a Pull broadcast continues after a nested disposal; witnesses in `Thm/Counterexamples.lean`). What is proved: those
 messages to non-live members are the ONLY phase-level violations — every member is subscribed exactly once and never after the output
 is over. -/
